@@ -17,6 +17,8 @@ def gen_package(seed, ncase=NCASE, **kw):
     tests = [normalize(g.case("case_%d" % i)) for i in range(ncase)]
     if seed % 4 == 0:
         tests.append(normalize(g.spill_case("case_spill")))     # register pressure: > allocatable registers live at once
+    for t in g.pattern_cases(seed):
+        tests.append(normalize(t))
     normalize(g.prog)
     return {"id": "g%d" % seed, "seed": seed, "prog": g.prog, "tests": tests,
             "src": Renderer(g.prog).package(tests)}
